@@ -76,6 +76,11 @@ def worlds(rnd, n):
             final["sf"] = ["a.txt"] if final["at"] == "" else ["b.txt"]
         if rnd.random() < 0.3:
             ops.append({"op": "write", "path": "new.txt", "data": "new"})
+        if prior and rnd.random() < 0.4:
+            # the run that is killed is not the first one that was: leftovers of an earlier interrupted create (half-written
+            # temporary files) are lying in the history folders
+            for h in [""] + (["s"] if nested else []):
+                ops.append({"op": "staletmp", "hist": h, "torn": rnd.random() < 0.7})
         out.append({"root": "root", "tree": tree, "ops": ops, "final": final, "c15": {"prior_root_generations": prior, "nested": nested}})
     return out
 
